@@ -31,7 +31,9 @@ RULE = ('run: a client byte string (HTTP grammar + repeated httpgen.mutate; rand
         'follow-up bytes after a served request) under a segmentation, through the real HttpProtocolHandler (default '
         'flags, --enable-web-server, or web + static file server, each also with --enable-proxy-protocol and PROXY v1 '
         'lines (valid, spec-valid but over the 57-byte limit, malformed, v2 signature); patched connect that succeeds or fails); per segment: outcome class, client buffer, handle_data result, must-flush, teardown, '
-        'read interest vs the model.  build/wf: argument tuples of the response builders vs the Build/Responses models, '
+        'read interest vs the model.  flush: 1-5 pipelined web-server route requests / 404 / static file / 400 in one '
+        'or more segments, then write-ready ticks whose send() accepts 1 / len-1 / k / all bytes or would block: the '
+        'byte stream the client receives vs the concatenation of the queued packets.  build/wf: argument tuples of the response builders vs the Build/Responses models, '
         'and WF_response vs h11 on canned, built and damaged responses.  distinct by canonical JSON; non-trivial = run '
         'case that reaches a reject or served outcome, or an in-guard builder case')
 ASSUMPTIONS = [
@@ -318,6 +320,165 @@ def _drive(case):
 
 
 # --------------------------------------------------------------------------------------------
+# delivery: several responses queued at once, short writes and would-block on the client socket
+# --------------------------------------------------------------------------------------------
+
+ROUTE_REQ = b'GET /http-route-example HTTP/1.1\r\nHost: a\r\n\r\n'
+ROUTE_REQ_CLOSE = b'GET /http-route-example HTTP/1.1\r\nHost: a\r\nConnection: close\r\n\r\n'
+
+
+def drive_flush(case):
+    """Real handler (web server + the example route plugin, or default flags), the request bytes fed in
+    the given segments, then write-ready ticks in which the client socket's send() accepts what the
+    pattern `sends` says (int k = at most k bytes, 'm1' = all but one byte, 'all', 'b' = would
+    block), cyclically, until nothing is queued.  With `inter` the write-ready ticks are interleaved
+    with the reads.  Returns the byte stream the client received, every packet that was queued (in
+    order), what is left, and whether the handler finally asked for teardown."""
+    from proxy.http import responses as R
+    old_gzip = R.gzip
+    R.gzip = _GzShim()
+    try:
+        return _drive_flush(case)
+    finally:
+        R.gzip = old_gzip
+
+
+def _drive_flush(case):
+    from harness import sim
+    logging.disable(logging.CRITICAL)
+    segs = [bytes.fromhex(s) for s in case['segs']]
+    opts = {'plugins': ['proxy.plugin.WebServerPlugin']} if case.get('route') else {}
+    sends = case['sends']
+    with sim.World(args=flag_args(case), strict=False, **opts) as w:
+        h, cs, cp = w.new_client()
+        fd = cs.fileno()
+        queued, got, pos = [], bytearray(), [0]
+        real_queue = h.work.queue
+
+        def queue(mv):
+            queued.append(bytes(mv))
+            return real_queue(mv)
+        h.work.queue = queue
+
+        def send(data, *a):
+            data = bytes(data)
+            what = sends[pos[0] % len(sends)]
+            pos[0] += 1
+            if what == 'b':
+                raise BlockingIOError(errno.EAGAIN, 'scripted would-block')
+            n = len(data) if what == 'all' else max(1, len(data) - 1) if what == 'm1' else max(1, min(int(what), len(data)))
+            got.extend(data[:n])
+            return n
+        cs.send = send
+        teardown = False
+
+        def wtick():
+            ev = w.events(h)
+            if ev.get(fd, 0) & selectors.EVENT_WRITE:
+                return w.tick(h, [], [fd]) is True
+            return False
+        for sgm in segs:
+            ev = w.events(h)
+            if teardown or not (ev.get(fd, 0) & selectors.EVENT_READ):
+                break
+            cs.script_recv(('data', sgm))
+            W = [fd] if case.get('inter') and (ev.get(fd, 0) & selectors.EVENT_WRITE) else []
+            teardown = w.tick(h, [fd], W) is True
+        for _ in range(20000):
+            if teardown or not h.work.has_buffer():
+                break
+            teardown = wtick()
+        return {'stream': bytes(got), 'queued': queued, 'left': len(h.work.buffer), 'teardown': teardown,
+                'mf': h.must_flush_before_shutdown}
+
+
+def h11_stream(raw, n):
+    """None when h11 (client role) reads `raw` as exactly n complete responses to n pipelined GETs
+    and nothing else"""
+    import h11
+    c = h11.Connection(our_role=h11.CLIENT)
+    fed = False
+    try:
+        for i in range(n):
+            c.send(h11.Request(method=b'GET', target=b'/', headers=[(b'Host', b'a')]))
+            c.send(h11.EndOfMessage())
+            if not fed:
+                c.receive_data(raw)
+                fed = True
+            got = False
+            while True:
+                ev = c.next_event()
+                if ev is h11.NEED_DATA:
+                    return 'response-%d-incomplete' % (i + 1)
+                if ev is h11.PAUSED:
+                    break
+                if isinstance(ev, h11.Response):
+                    got = True
+                if isinstance(ev, h11.EndOfMessage):
+                    break
+                if isinstance(ev, h11.ConnectionClosed):
+                    return 'closed-before-response-%d' % (i + 1)
+            if not got:
+                return 'no-response-%d' % (i + 1)
+            if i + 1 < n:
+                if c.our_state is h11.MUST_CLOSE or c.their_state is h11.MUST_CLOSE:
+                    return 'connection-close-announced-before-response-%d' % (i + 2)
+                c.start_next_cycle()
+    except h11.RemoteProtocolError as e:
+        return 'h11:' + str(e)[:50].replace(' ', '-')
+    except h11.LocalProtocolError as e:
+        return 'h11-local:' + str(e)[:50].replace(' ', '-')
+    if n == 0:
+        return None if not raw else 'bytes-without-a-request'
+    if c.trailing_data[0]:
+        return 'surplus-bytes-after-the-last-response'
+    return None
+
+
+SEND_PATTERNS = [
+    ['all'], [1], ['m1'], [1, 'all'], ['m1', 'all'], ['b', 'all'], ['b', 1, 'm1', 'all'], [2, 'b', 'b', 'm1'], [7], [64, 1],
+    ['m1', 1], [40, 'b', 'all'], [100, 'm1', 3],
+]
+
+
+def _flush(segs, expect, sends, web=1, route=1, inter=0, closing=0):
+    return {'kind': 'flush', 'web': web, 'route': route, 'inter': inter, 'closing': closing, 'expect': expect,
+            'sends': sends, 'segs': [x.hex() for x in segs if x]}
+
+
+def flush_streams(rng=None):
+    """(request bytes, number of responses the client must get, connection closes afterwards, web, route)"""
+    out = []
+    for n in (1, 2, 3, 5):
+        out.append((ROUTE_REQ * n, n, 0, 1, 1))
+        # a pipelined non-keep-alive request is answered, then the connection is torn down (the very
+        # first request's `Connection: close` is not acted upon by the web plugin)
+        out.append((ROUTE_REQ * (n - 1) + ROUTE_REQ_CLOSE, n, 1 if n > 1 else 0, 1, 1))
+    out.append((b'GET /nope HTTP/1.1\r\n\r\n', 1, 1, 1, 1))                      # 404 + close
+    out.append((b'GET /a.txt HTTP/1.1\r\n\r\n', 1, 1, 2, 0))                     # static file + close
+    out.append((b'GET /big.txt HTTP/1.1\r\n\r\n', 1, 1, 2, 0))                   # compressed static file + close
+    out.append((b'GARBAGE\r\n\r\n', 1, 1, 0, 0))                                 # the canned 400 + close
+    out.append((b'GET / HTTP/1.1\r\n\r\n', 1, 1, 0, 0))                          # no plugin: 400 + close
+    out.append((b'GET http://h/ HTTP/2.0\r\n\r\n', 1, 1, 1, 1))                  # unknown protocol: 400 + close
+    return out
+
+
+def flush_cases(rng, reps):
+    streams = flush_streams()
+    for raw, n, closing, web, route in streams:
+        for sends in SEND_PATTERNS:
+            yield _flush([raw], n, sends, web, route, 0, closing)
+    for _ in range(reps):
+        raw, n, closing, web, route = rng.choice(streams)
+        k = rng.choice([1, 2, 3, 5, 9, 30, 'm1', 'all', 'b'])
+        sends = [rng.choice([1, 2, 3, k, k, 'm1', 'all', 'b', rng.randrange(1, 200)]) for _ in range(rng.randrange(1, 6))]
+        if all(x == 'b' for x in sends):
+            sends.append(rng.randrange(1, 50))
+        segs = G.split_at(raw, G.cuts(rng, len(raw), rng.choice([0, 0, 1, 2, 4])))
+        yield _flush(segs, n, sends, web, route, rng.randrange(2), closing)
+
+
+# --------------------------------------------------------------------------------------------
 # builders
 # --------------------------------------------------------------------------------------------
 
@@ -388,6 +549,8 @@ def _impl(case):
         return [' | '.join(drive(case)[0])]
     if k == 'wf':
         return ['wf=%d' % (h11_check(bytes.fromhex(case['raw']), case['ctx']) is None)]
+    if k == 'flush':
+        return ['ok ' + hx(drive_flush(case)['stream'])]
     try:
         r = build(case)
     except Exception as e:
@@ -414,6 +577,11 @@ def model_lines(case):
                                               ','.join(rec.cds) or '.', ' '.join(case['segs']))]
     if k == 'wf':
         return ['first wf %s %s' % (case['ctx'], case['raw'] or '-')]
+    if k == 'flush':
+        # the packets the handler / plugins queued are recorded from a run of the real code in which
+        # every send() takes everything; the model says what the client must then receive
+        r = guarded(drive_flush, dict(case, sends=['all']), cpu=3)
+        return ['first cat ' + ('-' if r == 'hang' else bl(r['queued']))]
     if k == 'mkres':
         return ['hp mkres %d %s %s %s %s %d %d' % (case['status'], case['version'] or '-', tok(case['reason']),
                                                     hdrs_tok(case['headers']), tok(case['body']), case['cc'], case['nocl'])]
@@ -511,6 +679,16 @@ def h11_check(raw, ctx='other', eof=True):
 def _oracle(case):
     k = case['kind']
     if k == 'wf':
+        return None
+    if k == 'flush':
+        r = drive_flush(case)
+        why = h11_stream(r['stream'], case['expect'])
+        if r['left'] and (why is None or 'incomplete' in why):
+            return 'queued-output-never-drained'
+        if why:
+            return 'client-stream-not-a-sequence-of-valid-responses:' + why
+        if case.get('closing') and not r['teardown']:
+            return 'connection-kept-open-after-reject'
         return None
     if k != 'run':
         if not in_guard(case):
@@ -876,6 +1054,7 @@ def corpus():
         if len(raw) <= 80:
             cs.append(_run([bytes([c]) for c in raw], 0, 'refuse'))
     cs += builder_corpus()
+    cs += list(flush_cases(None, 0))
     return cs
 
 
@@ -1098,6 +1277,7 @@ def generate(rng, tier):
             c = _run([bytes([x]) for x in raw], web, plan, 1)
             c['fam'] = 'proxy-protocol'
             yield c
+    yield from flush_cases(rng, 4000 if big else 500)
     for _ in range(12000 if big else 1500):
         c = gen_builder(rng)
         yield c
@@ -1141,6 +1321,8 @@ def search(rng):
 
 
 def describe(case):
+    if case['kind'] == 'flush':
+        return ['flush responses=%d closing=%d' % (case['expect'], case['closing']), 'flush inter=%d' % case['inter']]
     if case['kind'] != 'run':
         return [case['kind'] + ' in-guard=%d' % in_guard(case)] if case['kind'] != 'wf' else ['wf']
     return ['run fam=%s' % case.get('fam', 'fixed'), 'run web=%d plan=%s pp=%d' % (case['web'], case['plan'], case.get('pp', 0)),
@@ -1148,7 +1330,7 @@ def describe(case):
 
 
 def nontrivial(case):
-    if case['kind'] == 'run':
+    if case['kind'] in ('run', 'flush'):
         return True
     return case['kind'] != 'wf' and in_guard(case)
 
